@@ -17,6 +17,7 @@
                        requirement among the checks reachable from `c`".  Elements of a heterogeneous array may be
                        ANY check of the fragment (no short-cut there).  Names may be recursive.
   Theorem (Lemmas/TypeCheckSound.lean, Props/C08.lean): on F1 the machine accepts iff the object conforms.
+  The same on F2 below (Lemmas/TypeCheckSoundF2.lean, Props/C08F2.lean).
 -/
 import Parsley.Model.TypeCheck
 import Parsley.Spec.Conforms
@@ -70,7 +71,8 @@ def reachable (ctx : Ctx) (c : Chk) : List Chk := reach ctx ((chkU ctx c).length
 def inF1 (ctx : Ctx) (c : Chk) : Bool :=
   (reachable ctx c).contains c && closedB ctx (reachable ctx c)
 
-/-! ### fragment F2 (with disjunctions) -- STATED and TESTED by the judge, NOT proved
+/-! ### fragment F2 (with disjunctions) -- machine = specification PROVED on it (`machine_eq_conforms_F2`,
+  Props/C08F2.lean, Lemmas/TypeCheckSoundF2.lean); also evaluated by the judge on every case
 
   The memo keeps the pair (object, alternative) of an alternative that FAILED, and a pair found in the memo is
   skipped as if it had succeeded (`memo-leak`, Props/C08.lean `shared_alternative_leak_witness`).  A disjunction
@@ -115,7 +117,7 @@ def nodeOK2 (ctx : Ctx) : Chk → Bool
   | .disj _ os => !os.chks.isEmpty && os.chks.all isLeafAlt && decide (os.chks.eraseDups.length = os.chks.length)
   | c => nodeOK ctx c
 
-/-- FRAGMENT F2 (decidable; conjectured, not proved) -/
+/-- FRAGMENT F2 (decidable; the hypothesis of `Parsley.C08.machine_eq_conforms_F2`) -/
 def inF2 (ctx : Ctx) (c : Chk) : Bool :=
   let L := reachable2 ctx c
   let Ds := altLists ctx L
